@@ -118,9 +118,11 @@ def check_case(case, ctx):
         # live object reached through a history; expectation from the content read back just before transposing
         s = hist.build_seed(hist.seed_descs(60, ctx["ch"], ctx["ch"] + 1)[case["seed"]], case["build"])
         try:
-            hist.apply(s, case["hist"], {"hp": 107})      # the aliased / added motif sits at the range limit
+            hist.apply(s, case["hist"], {"hp": 107}, R)      # the aliased / added motif sits at the range limit
         except Exception as e:  # noqa: BLE001
             R.outcome = "history_raises:" + type(e).__name__
+            return R
+        if R.viols:
             return R
         d = hist.observe_desc(s)
         if d is None:
